@@ -18,7 +18,7 @@ class CallMixin(object):
     SPEC_FORMS = {"forall", "exists", "old", "let"}
     SPEC_FUNCS = {"isinf", "isnan", "is_int", "abs", "min", "max", "len", "finite", "implies", "iff", "ite", "fresh",
                   "floor", "trunc", "has", "get", "real", "allocated_before", "same", "sqrt", "arr", "add_rtp", "add_rtn",
-                  "sub_rtp", "sub_rtn", "exact_add", "exact_sub", "rn_add", "next_up", "next_down"}
+                  "sub_rtp", "sub_rtn", "exact_add", "exact_sub", "rn_add", "rn_sub", "next_up", "next_down"}
 
     # ------------------------------------------------------------------ dispatch
     def call_value(self, f, args, kwargs, spec, node=None):
@@ -44,9 +44,11 @@ class CallMixin(object):
         raise VerifError("call of %r" % (f,))
 
     def contract_for(self, f):
+        model = self.ctx.num.name
         for q in (f.dyn_qualname(), f.qualname):
-            if q in REG.contracts:
-                return REG.contracts[q]
+            for key, c in REG.contracts.items():
+                if c.qualname == q and c.model == model and not c.tag_is_lemma:
+                    return c
         return None
 
     def frame_qualname(self, fr):
@@ -375,7 +377,7 @@ class CallMixin(object):
             return self.dict_get(args[0], args[1], True)
         if name == "sqrt":
             return self.sqrt_value(ctx.to_float(args[0]), True)
-        if name in ("add_rtp", "add_rtn", "sub_rtp", "sub_rtn", "exact_add", "exact_sub", "rn_add"):
+        if name in ("add_rtp", "add_rtn", "sub_rtp", "sub_rtn", "exact_add", "exact_sub", "rn_add", "rn_sub"):
             a, b = ctx.to_float(args[0]), ctx.to_float(args[1])
             if num.name == "R":
                 if name.startswith("exact"):
@@ -385,8 +387,8 @@ class CallMixin(object):
             if name.startswith("exact"):
                 # the IEEE operation is exact iff rounding up and rounding down agree
                 return z3.fpEQ(op(z3.RTP(), a, b), op(z3.RTN(), a, b))
-            if name == "rn_add":
-                return z3.fpAdd(z3.RNE(), a, b)
+            if name in ("rn_add", "rn_sub"):
+                return op(z3.RNE(), a, b)
             return op(z3.RTP() if name.endswith("rtp") else z3.RTN(), a, b)
         if name == "arr":
             v = args[0]
